@@ -89,3 +89,32 @@ Definition fpal (t : tables) (t2 : tables2) (G : float) (prim : list float) (m a
   [pm p; px p; py p; pz p; pvx p; pvy p; pvz p].
 Definition tpal (t : tables) (t2 : tables2) (G : float) (p prim : list float) : list float :=
   particle_to_pal FNum (libm2_of t2) G (mkp p) (mkp prim).
+
+(* ---- round 3: the value flow of the two front ends (Flow.v) at binary64, followed by the model of
+        reb_particle_from_orbit_err; compared with what reb_particle_from_fmt / rebound.Particle return ---- *)
+From RV Require Import C11.Flow.
+Definition peri_of (z : Z) : peri := match z with 1%Z => PeriOmega | 2%Z => PeriPomega | _ => PeriDefault end.
+Definition anom_of (z : Z) : anom :=
+  match z with 1%Z => AnF | 2%Z => AnM | 3%Z => AnE | 4%Z => AnL | 5%Z => AnTheta | 6%Z => AnT | _ => AnDefault end.
+
+Definition flow_particle (front_py : bool) (t : tables) (t2 : tables2) (powt : list (float * float * float))
+    (prim : list float) (afp : bool) (pe an : Z) (v : list float) : list float :=
+  match v with
+  | [G; tm; m; a; P; e; inc; Om; om; pom; f; M; E; l; th; T] =>
+    let L := libm_of t in
+    let pr := mkp prim in
+    let vv := mkVals G tm (pm pr) m a P e inc Om om pom f M E l th T in
+    let els := if front_py then py_elements FNum L (lookup2 powt) afp (peri_of pe) (anom_of an) vv
+               else c_elements FNum L (lookup (t_cbrt t2)) afp (peri_of pe) (anom_of an) vv in
+    match els with
+    | [a'; e'; inc'; Om'; om'; f'] =>
+      match from_orbit_err FNum TINY G pr m a' e'
+              (mkTrig (l_cos L Om') (l_sin L Om') (l_cos L om') (l_sin L om') (l_cos L f') (l_sin L f')
+                      (l_cos L inc') (l_sin L inc')) with
+      | inl c => [f_ofZ c]
+      | inr p => [0; pm p; px p; py p; pz p; pvx p; pvy p; pvz p]
+      end
+    | _ => []
+    end
+  | _ => []
+  end.
